@@ -87,10 +87,14 @@ fn casing(s: &str, mask: u8) -> String {
     s.chars().enumerate().map(|(i, c)| if mask >> (i % 8) & 1 == 1 { c.to_ascii_uppercase() } else { c.to_ascii_lowercase() }).collect()
 }
 fn comment() -> BoxedStrategy<String> {
-    let atom = prop_oneof![3 => "[a-zA-Z0-9 ,.:+\\-]{0,6}", 1 => Just("\\(".to_string()), 1 => Just("\\)".to_string()), 1 => Just("\\\\".to_string()), 1 => Just("é☃".to_string())];
+    let atom = prop_oneof![3 => "[a-zA-Z0-9 ,.:+\\-]{0,6}", 1 => Just("\\(".to_string()), 1 => Just("\\)".to_string()), 1 => Just("\\\\".to_string()), 1 => Just("é☃".to_string()),
+        // a backslash quotes any character whatever
+        2 => prop_oneof![2 => any::<char>(), 1 => proptest::sample::select(vec!['é', '中', '\u{a0}', '\u{3000}', '😽', 'x', '\t'])].prop_map(|c| format!("\\{c}"))];
     let flat = proptest::collection::vec(atom, 0..4).prop_map(|v| format!("({})", v.concat()));
     let f2 = flat.clone();
-    prop_oneof![3 => flat.clone(), 1 => (f2, flat).prop_map(|(a, b)| format!("(x{a}y{b})"))].boxed()
+    // comments nest to any depth
+    let deep = (proptest::sample::select(vec![3usize, 17, 100, 254, 255, 256, 257, 300, 1000]), "[a-z]{0,3}").prop_map(|(n, w)| format!("{}{w}{}", "(".repeat(n), ")".repeat(n)));
+    prop_oneof![6 => flat.clone(), 2 => (f2, flat).prop_map(|(a, b)| format!("(x{a}y{b})")), 1 => deep].boxed()
 }
 #[derive(Clone, Debug)]
 struct Shape {
@@ -139,7 +143,9 @@ fn grammar_case() -> BoxedStrategy<GCase> {
                     ((if sh.wmask & 1 == 1 { c.to_ascii_lowercase() } else { c }).to_string(), 0)
                 }
             };
-            let ytxt = match sh.ystyle { 0 => format!("{:02}", y % 100), 1 => format!("{:03}", y - 1900), 2 => format!("{y:04}"), _ => format!("{y}") };
+            // four or more digits: any number of leading zeros
+            let pad = [0usize, 0, 0, 0, 1, 2, 3, 5, 8][(bigyear % 9) as usize];
+            let ytxt = match sh.ystyle { 0 => format!("{:02}", y % 100), 1 => format!("{:03}", y - 1900), 2 => format!("{}{y:04}", "0".repeat(pad)), _ => format!("{}{y}", "0".repeat(pad)) };
             let dtxt = if sh.day2 { format!("{d:02}") } else { format!("{d}") };
             let sec = t.secs % 60 + if t.leap() { 1 } else { 0 };
             let time = if sh.seconds { format!("{:02}:{:02}:{:02}", t.secs / 3600, t.secs / 60 % 60, sec) } else { format!("{:02}:{:02}", t.secs / 3600, t.secs / 60 % 60) };
